@@ -75,7 +75,7 @@ CHECKS["C17"] = dict(
    design_ref="DESIGN.md 4.2, 6 (C16/C17)", note=AB_NOTE)
 
 CHECKS["C08"] = dict(
-   technique="TLA+ model SnapRef.tla (Open/Close/GC at the grain of their atomic steps) exhausted by TLC; TLC-simulated behaviours replayed as gate schedules on the real Snapshot.Open/Close/NewIterator/GC; TLC trace validation at API grain (SnapAPI.tla) and step conformance (Trace_SnapRef.tla)",
+   technique="TLA+ model SnapRef.tla (Open/Close/GC at the grain of their atomic steps) exhausted by TLC; inductive invariant of the count (RefCountInd.tla) discharged by Apalache for unbounded counts and calls; TLC-simulated behaviours replayed as gate schedules on the real Snapshot.Open/Close/NewIterator/GC; TLC trace validation at API grain (SnapAPI.tla) and step conformance (Trace_SnapRef.tla)",
    text="TLC enumerates every interleaving of Open's load/compare-and-swap against Close's decrement, list move, try-lock and per-snapshot collection steps for 2-3 processes and 1-3 snapshots: no handle on a retired snapshot, retired once, released in order, collector not stuck after a forced pass at quiescence. On the real code the gate scheduler parks goroutines at the yield points inside Open/Close/GC and enforces TLC-simulated and random schedules; free-running goroutines add unsteered executions; TLC judges Open/NewIterator results against retirement, retire-once, collector order and lastGCSn/lists at quiescence, and checks the real reference counts and lists equal the model's after every step.",
    design_ref="DESIGN.md 4.3, 6 (C08)",
    note="Trusted: TLC, the gate scheduler (sequentially consistent interleavings at yield-point grain), harness logging. Bounds: exhaustive 2 procs x 2-3 snapshots, 3 procs x 1-2 snapshots; scenarios up to 4 goroutines, 3 snapshots. The sequential part (Open after last Close fails, NewIterator nil) is also checked in every NitroMVCC trace.")
